@@ -158,7 +158,7 @@ func runClosedWatch(t *testing.T, out *vfh.Out, terminate bool) {
 	done := make(chan error, 1)
 	go func() { done <- v.a.Run(ctx) }()
 	// the initial RA shows the advertiser is up
-	deadline := time.Now().Add(5 * time.Second)
+	deadline := time.Now().Add(30 * time.Second) // generous: the machine may be busy; costs nothing when all is well
 	for len(v.conn.snapshot()) == 0 && time.Now().Before(deadline) {
 		time.Sleep(2 * time.Millisecond)
 	}
@@ -170,7 +170,7 @@ func runClosedWatch(t *testing.T, out *vfh.Out, terminate bool) {
 		if err != nil {
 			status = "error"
 		}
-	case <-time.After(5 * time.Second):
+	case <-time.After(30 * time.Second):
 		status = "hung"
 	}
 	nFinal, n := 0, 0
